@@ -49,7 +49,7 @@ const queueCapacity = 100
 
 // unresponsive peer: the write loop waits 1 s for the answer to its close frame; everything must be gone this long
 // after the close frame was seen
-var muteBound = 2500 * time.Millisecond
+var muteBound = 5 * time.Second
 
 // slow reader: longer than a sender would reasonably wait, shorter than the write loop's 5 s write deadline
 const slowPause = 2500 * time.Millisecond
@@ -231,6 +231,28 @@ func newAPI(w *world) *apifu.API {
 			}
 			return ctx.Object, nil
 		}})
+	// a subscription whose events are 100 KB each
+	cfg.AddSubscription("sb", &graphql.FieldDefinition{Type: graphql.StringType, Arguments: nArg,
+		Resolve: func(ctx graphql.FieldContext) (interface{}, error) {
+			if ctx.IsSubscribe {
+				n := argN(ctx)
+				w.mu.Lock()
+				src := &source{idx: len(w.sources), n: n, ch: make(chan int), stopped: make(chan struct{})}
+				w.sources = append(w.sources, src)
+				w.execs = append(w.execs, sexp.T("sub", sexp.Int(n)))
+				w.mu.Unlock()
+				return &apifu.SubscriptionSourceStream{
+					EventChannel: src.ch,
+					Stop: func() {
+						if atomic.AddInt32(&src.stops, 1) == 1 {
+							close(src.stopped)
+						}
+					},
+				}, nil
+			}
+			v, _ := ctx.Object.(int)
+			return fmt.Sprintf("%d:", v) + bigString, nil
+		}})
 	cfg.AddSubscription("sf", &graphql.FieldDefinition{Type: graphql.IntType, Arguments: nArg,
 		Resolve: func(ctx graphql.FieldContext) (interface{}, error) {
 			if ctx.IsSubscribe {
@@ -363,6 +385,11 @@ type Script struct {
 	// nothing for slowPause; then it reads everything.  The write loop blocks on the socket, the queue fills, the
 	// read loop blocks in sendMessage: back-pressure, nothing may be lost.
 	Slow int
+	// SlowPing: the first source's subscription has 100 KB events; the client stops reading, the source delivers
+	// events until its goroutine blocks on the full outgoing queue (socket buffers and queue are full of results the
+	// goroutine queued, the read loop is free), then the client sends a ping, waits, and resumes reading: all
+	// events and the pong must arrive.
+	SlowPing bool
 	// Full: after the labels (which start at least one subscription) this frame makes the server begin
 	// closing; the harness does not answer the close frame, so the write loop sits in its 1 s wait and
 	// drains nothing; meanwhile the first source delivers events until the goroutine blocks on the full
@@ -967,6 +994,62 @@ func runConversation(tag string, sc Script) (res Result) {
 		// the write loop's 1 s wait passes; it closes the socket and exits
 		time.Sleep(1300 * time.Millisecond)
 	}
+	if sc.SlowPing && !cv.term && cv.ackSeen && len(w.sources) > 0 {
+		flush()
+		w.takeExecs()
+		atomic.StoreInt32(&readerPaused, 1)
+		time.Sleep(20 * time.Millisecond)
+		src := w.source(0)
+		for src.emitted < 900 && !src.ended && atomic.LoadInt32(&src.stops) == 0 {
+			src.emitted++
+			t := time.NewTimer(300 * time.Millisecond)
+			ok := false
+			select {
+			case src.ch <- src.n*1000 + src.emitted:
+				ok = true
+			case <-t.C:
+			}
+			t.Stop()
+			if !ok {
+				src.emitted--
+				break // the goroutine is blocked in sendMessage: socket buffers and queue are full
+			}
+			n := len(performed)
+			performed = append(performed, Label{Kind: lEmit, Src: 0, Op: src.n})
+			cv.log = append(cv.log, sexp.T("sent", sexp.Int(n)))
+			obs = append(obs, sexp.T("obs", sexp.T("execs"), sexp.T("nostops")))
+		}
+		lastK := src.emitted
+		n := len(performed)
+		pl := Label{Kind: lMsg, Type: "ping", Pay: "none"}
+		performed = append(performed, pl)
+		cv.log = append(cv.log, sexp.T("sent", sexp.Int(n)))
+		pd, _ := pl.wire(n)
+		c.SetWriteDeadline(time.Now().Add(waitT))
+		c.WriteMessage(websocket.TextMessage, pd)
+		obs = append(obs, sexp.T("obs", sexp.T("execs"), sexp.T("nostops")))
+		time.Sleep(500 * time.Millisecond) // the read loop has the ping in hand while the queue is full
+		from := len(cv.frames)
+		atomic.StoreInt32(&readerPaused, 0)
+		longWait := func(what string, m func(SFrame) bool) {
+			deadline := time.Now().Add(10 * waitT)
+			for !cv.term {
+				for _, f := range cv.frames[from:] {
+					if m(f) {
+						return
+					}
+				}
+				if !cv.pump(deadline) {
+					if !cv.term {
+						cv.stall = append(cv.stall, what)
+					}
+					return
+				}
+			}
+		}
+		longWait("slow-events", func(f SFrame) bool { return f.Kind == "data" && f.Class == "ev" && f.N == src.n && f.K == lastK })
+		dirty = true
+	}
 	if sc.Slow > 0 && !cv.term && cv.ackSeen {
 		flush()
 		w.takeExecs()
@@ -1097,6 +1180,36 @@ func runConversation(tag string, sc Script) (res Result) {
 	var muteWhere []string
 	var muteObs sexp.Node
 	muteAccount := func() {
+		// meanwhile the sources stay busy: every live source delivers an event every 150 ms (the goroutines keep
+		// handing frames to sendMessage while the write loop waits for the answer to its close frame)
+		stopBusy := make(chan struct{})
+		busyDone := make(chan struct{})
+		go func() {
+			defer close(busyDone)
+			for {
+				w.mu.Lock()
+				srcs := append([]*source(nil), w.sources...)
+				w.mu.Unlock()
+				for _, src := range srcs {
+					if src.ended {
+						continue
+					}
+					select {
+					case src.ch <- src.n*1000 + 999:
+					case <-src.stopped:
+					case <-stopBusy:
+						return
+					case <-time.After(20 * time.Millisecond):
+					}
+				}
+				select {
+				case <-stopBusy:
+					return
+				case <-time.After(150 * time.Millisecond):
+				}
+			}
+		}()
+		defer func() { close(stopBusy); <-busyDone }()
 		deadline := time.Now().Add(muteBound)
 		for {
 			muteLeft, muteWhere = servingInfo(tag, time.Now())
@@ -1138,6 +1251,11 @@ func runConversation(tag string, sc Script) (res Result) {
 			cv.waitTerm("close-reply")
 		}
 	case "drop", "drop-rst":
+		if sc.Mute && sc.Flood > 0 {
+			// the write loop has failed a write (5 s write deadline) and exited while the peer still holds the
+			// connection: everything must be gone before the client does anything
+			muteAccount()
+		}
 		atomic.StoreInt32(&clientClosing, 1)
 		if tc, ok := c.UnderlyingConn().(*net.TCPConn); ok && end == "drop-rst" {
 			tc.SetLinger(0)
